@@ -149,6 +149,7 @@ class FakeClient:
         self.results = []
         self.indices = FakeIndices(self)
         self.transport = FakeTransport()
+        self.ok_value = "dict"
 
     def options(self, **kw):
         return self
@@ -160,7 +161,8 @@ class FakeClient:
         if len(self.calls) > 40:
             raise AssertionError("more than 40 calls: the retry loop does not stop")
         if code == "ok":
-            res = {"acknowledged": True, "serial": n}
+            # a successful answer may well be falsy: a HEAD request answered with 404 (exists), an empty body, zero hits
+            res = {"acknowledged": True, "serial": n} if self.ok_value == "dict" else {"false": False, "empty": {}, "zero": 0, "none": None, "list": []}[self.ok_value]
             self.results.append(res)
             return res
         if code.startswith("items-"):
@@ -330,7 +332,19 @@ class GuardedHarness(Harness):
         alphabet = GENERIC + (BULK_ONLY if op in BULK_OPS else [])
         weights = [6 if a in RETRYABLE else 1 for a in alphabet]
         n = g.randint(1, 13)
-        return {"op": op, "script": [alphabet[g.weighted(weights)] for _ in range(n)], "ndocs": g.randint(1, 3)}
+        cfg = {"op": op, "script": [alphabet[g.weighted(weights)] for _ in range(n)], "ndocs": g.randint(1, 3)}
+        if g.coin(0.3):
+            cfg["ok_value"] = g.pick(["false", "empty", "zero", "none", "list"])
+        if g.coin(0.4):
+            # the store client lives as long as the race: earlier operations on the same client, each with its own outcomes
+            prior = []
+            for _ in range(g.pick([1, 1, 2, 3])):
+                pop = g.pick(OPS)
+                palpha = GENERIC + (BULK_ONLY if pop in BULK_OPS else [])
+                pw = [4 if a in RETRYABLE else 1 for a in palpha]
+                prior.append({"op": pop, "script": [palpha[g.weighted(pw)] for _ in range(g.randint(0, 5))], "ndocs": g.randint(1, 3)})
+            cfg["prior"] = prior
+        return cfg
 
     def simplify(self, prop, cfg):
         s = cfg["script"]
@@ -341,6 +355,21 @@ class GuardedHarness(Harness):
         if cfg["ndocs"] > 1:
             c = dict(cfg)
             c["ndocs"] = 1
+            yield c
+        if cfg.get("prior"):
+            for i in range(len(cfg["prior"])):
+                c = dict(cfg)
+                c["prior"] = cfg["prior"][:i] + cfg["prior"][i + 1 :]
+                yield c
+            for i, pr in enumerate(cfg["prior"]):
+                for j in range(len(pr["script"])):
+                    c = dict(cfg)
+                    c["prior"] = [dict(x) for x in cfg["prior"]]
+                    c["prior"][i]["script"] = pr["script"][:j] + pr["script"][j + 1 :]
+                    yield c
+        if cfg.get("ok_value"):
+            c = dict(cfg)
+            del c["ok_value"]
             yield c
 
     def execute(self, prop, cfg, ch, tier):
@@ -357,9 +386,19 @@ class GuardedHarness(Harness):
         rally_time.time = FakeTime(clock)
         random.seed(ch.stream("backoff-jitter").choose(1 << 30))
         fake = FakeClient(cfg["script"], clock)
+        fake.ok_value = cfg.get("ok_value", "dict")
         es = metrics.EsClient(fake)
         op = cfg["op"]
         try:
+            for pr in cfg.get("prior") or []:
+                # earlier operations on the same client object; only the last one is judged
+                fake.script, fake.calls, fake.results = pr["script"], [], []
+                try:
+                    invoke(es, pr["op"], pr["ndocs"])
+                except BaseException:  # noqa
+                    pass
+            fake.script, fake.calls, fake.results = cfg["script"], [], []
+            del clock.sleeps[:]
             try:
                 outcome = ("return", invoke(es, op, cfg["ndocs"]))
             except AssertionError as e:
